@@ -248,6 +248,12 @@ macro_rules! repr_ops {
                 "read_be" => {
                     let bytes = j_to_bytes(&op["bytes"]);
                     let mut x = <$R>::default();
+                    if op.get("dirty").is_some() {
+                        // a destination that already holds something (it must be overwritten)
+                        for w in x.as_mut().iter_mut() {
+                            *w = 0xa5a5_5a5a_ffff_0001;
+                        }
+                    }
                     let mut cur = std::io::Cursor::new(&bytes[..]);
                     // "reader": n > 0 hands out at most n bytes per read call (pipes, sockets, chained readers)
                     let chunk = op["reader"].as_u64().unwrap_or(0) as usize;
@@ -260,6 +266,12 @@ macro_rules! repr_ops {
                 "read_le" => {
                     let bytes = j_to_bytes(&op["bytes"]);
                     let mut x = <$R>::default();
+                    if op.get("dirty").is_some() {
+                        // a destination that already holds something (it must be overwritten)
+                        for w in x.as_mut().iter_mut() {
+                            *w = 0xa5a5_5a5a_ffff_0001;
+                        }
+                    }
                     let mut cur = std::io::Cursor::new(&bytes[..]);
                     // "reader": n > 0 hands out at most n bytes per read call (pipes, sockets, chained readers)
                     let chunk = op["reader"].as_u64().unwrap_or(0) as usize;
